@@ -233,6 +233,38 @@ def rule_kb6(repo, col):
                construct="smart constraint: indicator meaning", function="CNF._contents")
 
 
+def rule_kb7(repo, col):
+    """CNF.from_partial (solver model -> proof): whether a decided atom enters the proof depends on the parity / sign of its partial literal and on its PRESENCE in the weight
+    table only - never on the value of its weight (the hidden 'no head chosen' atom of an annotated disjunction has the neutral weight in the table and a real probability
+    in extract_weights)"""
+    import re
+
+    f = repo.func("problog.cnf_formula", "CNF.from_partial")
+    m = f.module
+    loops = [lp for lp in walk_no_nested(f.node) if isinstance(lp, ast.For) and isinstance(lp.target, ast.Name)]
+    if len(loops) != 1:
+        raise AnalysisError("from_partial: loop over the model not found")
+    lp = loops[0]
+    sv = lp.target.id
+    n = 0
+    foreign = []
+    for p_ in dtable.extract_block(lp.body, opaque_loops=True):
+        n += 1
+        for s_, t_, _ in p_.conds:
+            z = s_.replace(" ", "")
+            if re.match(r"^%s%%2==[01]$" % sv, z) or re.match(r"^%s[<>]=?0$" % sv, z):
+                continue
+            if re.match(r"^.* in self\.get_weights\(\)$", s_) or re.match(r"^.* in \w+$", s_) and "get_weights" in str(p_.env):
+                continue
+            foreign.append(s_)
+    if n < 3:
+        raise AnalysisError("from_partial: decision table not understood")
+    col.decide("KB7", m, lp, not foreign, "a decided atom enters the proof by parity, sign and presence in the weight table only",
+               "from_partial also decides on `%s`: an atom whose stored weight is neutral - the 'no head chosen' atom of an annotated disjunction, which extract_weights gives the "
+               "probability 1 - sum(heads) - is then dropped from every proof, from its probability and from its blocking clause, and the bounds of k-best are no bounds any more"
+               % (foreign[0][:80] if foreign else ""), construct="from_partial: atom filtered by the value of its weight", function="CNF.from_partial")
+
+
 def run(repo, col):
     col.rule("KB1", "polarity of the borders")
     col.rule("KB2", "probability of a proof: literal / weight sign pairing")
@@ -243,3 +275,5 @@ def run(repo, col):
     rule_border(repo, col)
     col.rule("KB6", "partial encoding of smart constraints (annotated disjunctions) used by the solver calls")
     rule_kb6(repo, col)
+    col.rule("KB7", "model -> proof translation filters by presence in the weight table only")
+    rule_kb7(repo, col)
